@@ -499,22 +499,7 @@ def check(P, R):
     check_extra_state(P, R, 'C06.e', 'C06.c')
 
     # ---- f
-    br = P.func(f'{BM}:_body_read')
-    fors = [n for n in walk_shallow(br.node) if isinstance(n, ast.For)]
-    R.require(fors, '_body_read: loop missing')
-    lp = fors[0]
-    part = lp.target.id
-    parses = [c for st in lp.body for c in walk_shallow(st) if isinstance(c, ast.Call) and call_attr(c) == 'parse' and c.args and src(c.args[0]) == part]
-    writes = [c for st in lp.body for c in walk_shallow(st) if isinstance(c, ast.Call) and call_attr(c) == 'write' and c.args and src(c.args[0]) == part]
-    ok = len(parses) == 1 and len(writes) == 1
-    if ok:
-        # the only condition on feeding the scanner is that there is one (`markup is not None`, directly or through a flag)
-        recv = parses[0].func.value
-        pn = br.cfg.node_of_stmt(parses[0])[0]
-        atoms = T.guard_atoms(br, pn, within=lp)
-        ok = isinstance(recv, ast.Name) and T.holds_not_none(atoms, recv.id) and len(atoms) == 1
-    R.ob('C06.f', br, parses[0] if parses else lp, ok, text=f'markup.parse({part}) once per part, in the iteration that buffers it', detail='' if ok else
-         'the scanner is not fed every part exactly once in arrival order')
+    check_scanner_fed(P, R, 'C06.f')
 
     # ---- g: header terminator cut by the chunk end
     check_end_headers(P, R, consts)
@@ -614,3 +599,57 @@ def check_end_headers(P, R, consts):
              f'a chunk that is a proper head of the pending continuation `{c.func.value.id}` is consumed without shortening the continuation: when CRLFCRLF is spread over '
              f'three chunks (one lying completely inside it) the next chunk is compared with bytes already seen and the header end goes unnoticed',
              why='a read boundary inside CRLFCRLF must not change the result (any number of cuts)', key_extra='advance-pending')
+
+
+def check_scanner_fed(P, R, rid, why=None):
+    """_body_read hands every part to the multipart scanner exactly once, in arrival order, whenever there is a scanner - on every path through
+    the part loop (also the one that moves the buffer to a temporary file)"""
+    br = P.func(f'{BM}:_body_read')
+    g = br.cfg
+    fors = [n for n in walk_shallow(br.node) if isinstance(n, ast.For)]
+    R.require(fors, '_body_read: loop missing')
+    lp = fors[0]
+    part = lp.target.id
+    head = T.loop_head(g, lp)
+    parses = [c for st in lp.body for c in walk_shallow(st) if isinstance(c, ast.Call) and call_attr(c) == 'parse' and c.args and src(c.args[0]) == part]
+    R.require(parses, f'_body_read: no <scanner>.parse({part}) in the part loop')
+    recv = parses[0].func.value
+    pnodes = [g.node_of_stmt(c)[0] for c in parses]
+    none_edges = set()
+    if isinstance(recv, ast.Name):
+        for tn in g.nodes:
+            if tn.kind != 'test' or tn.ast is None:
+                continue
+            e = T.expand(br, tn.ast, tn)
+            neg = False
+            while isinstance(e, ast.UnaryOp) and isinstance(e.op, ast.Not):
+                e, neg = e.operand, not neg
+            cp = compare_parts(e)
+            if cp and isinstance(cp[0], ast.Name) and cp[0].id == recv.id and isinstance(cp[2], ast.Constant) and cp[2].value is None and cp[1] in (ast.Is, ast.IsNot):
+                is_none_on_true = (cp[1] is ast.Is) != neg
+                none_edges.add((tn, 'true' if is_none_on_true else 'false'))
+    first = T.succ_by_label(head, 'iter')
+    skipping = [s_ for s_ in first if s_ not in pnodes and head in g.reachable_from([s_], avoid_nodes=pnodes, avoid_edges=none_edges)]
+    # the exceptional exits do not count: a pass that raises presents no body at all
+    skipping = [s_ for s_ in skipping if head in g.reachable_from([s_], avoid_nodes=pnodes, avoid_edges=none_edges, labels_skip=('exc',))]
+    twice = [(a_, b_) for a_ in pnodes for b_ in pnodes if any(m_ is b_ or g.can_reach(m_, b_, avoid_nodes=[head]) for (m_, lab_) in a_.succ if lab_ != 'exc' and m_ is not head)]
+    # no other condition than the presence of a scanner
+    other = []
+    for pn in pnodes:
+        for (e, holds, tn) in T.guard_atoms(br, pn, within=lp):
+            cp = compare_parts(e)
+            if not (cp and isinstance(cp[0], ast.Name) and isinstance(recv, ast.Name) and cp[0].id == recv.id and isinstance(cp[2], ast.Constant) and cp[2].value is None):
+                if len(parses) == 1:
+                    other.append(e)
+    ok = not skipping and not twice and not other
+    det = ''
+    if skipping:
+        det = (f'a pass of the part loop can reach the next part without `{short(parses[0])}` although a scanner is present (e.g. the pass that moves the buffer to a '
+               f'temporary file): the scanner never sees that part, every delimiter inside it is lost and all later section offsets are short by its length')
+    elif twice:
+        det = 'a pass of the part loop can feed the same part to the scanner twice'
+    elif other:
+        det = f'feeding the scanner also depends on `{short(other[0])}`'
+    kw = dict(why=why) if why else {}
+    R.ob(rid, br, parses[0], ok, text=f'markup.parse({part}) once per part, in the iteration that buffers it', detail=det or ('' if ok else
+         'the scanner is not fed every part exactly once in arrival order'), **kw)
